@@ -50,7 +50,7 @@
 (* of any depth with the ES rules for `export *` (no default, explicit      *)
 (* exports shadow star exports, ambiguous star names are dropped).          *)
 (*                                                                          *)
-(* L == [ files   : [FileId -> [live, bits, isEntry]],                      *)
+(* L == [ files   : [FileId -> [live, bits, isEntry, css, wrap]],           *)
 (*        entries : set of entry ids (the elements of the bit sets),        *)
 (*        chunks  : [ChunkId -> [bits, isEntry, entry, files, order, kind,  *)
 (*                     imports : SUBSET [chunk, kind],                      *)
@@ -58,7 +58,8 @@
 (*                     importsFrom : SUBSET [chunk, alias]]],               *)
 (*        assigns : SUBSET [by, file, name]   code of file `by` assigns to  *)
 (*                                            the symbol [file, name]       *)
-(*        uses    : SUBSET [by, file, name],   top-level reads              *)
+(*        uses    : SUBSET [by, file, name],   top-level reads, and calls   *)
+(*                     of wrappers: name "wrapper" = init_x / require_x     *)
 (*        eexports: SUBSET [entry, file, name] ]  the entry point exports   *)
 (*                                            the symbol [file, name]       *)
 (* The export aliases of a chunk are assigned by a model of the linker's    *)
